@@ -532,6 +532,10 @@ func runHistory(c *engine.Ctx, dc dialCase) {
 	if dc.World == "both" {
 		s = world.MustServer(world.ServerCfg{Backend: world.Inmem, NoRoots: true, StorageWrap: dc.NodeWrap})
 		craftRoots(s, -5*day, 5*day, -time.Hour, 12*day)
+	} else if dc.World == "lapsed" {
+		// the current root ran out an hour ago, the next one is valid, the periodic rotation has not run yet
+		s = world.MustServer(world.ServerCfg{Backend: world.Inmem, NoRoots: true, StorageWrap: dc.NodeWrap})
+		craftRoots(s, -10*day, -time.Hour, -2*time.Hour, 10*day)
 	} else {
 		s = world.MustServer(world.ServerCfg{Backend: world.Inmem, StorageWrap: dc.NodeWrap})
 	}
@@ -753,7 +757,7 @@ func runDialAdv(c *engine.Ctx) engine.Result {
 		}
 	}
 	for _, h := range genHistories(c.Pick(5, 6)) {
-		for _, wk := range []string{"normal", "both"} {
+		for _, wk := range []string{"normal", "both", "lapsed"} {
 			cases = append(cases, dialCase{Kind: "history", Ops: h, World: wk, NodeWrap: len(h)%2 == 0})
 		}
 		// both chains valid: dials that carry client state and 1..3 extra protocols, repeated (the order in
